@@ -13,6 +13,11 @@ def strip_cont(a):
         if sq:
             if c == "'": sq = False
             out.append(c); i += 1
+        elif c == '#' and (i == 0 or a[i - 1] in ' \t\n;&|()'):
+            # a comment runs to its newline; a backslash at its end continues nothing
+            j = a.find('\n', i)
+            j = len(a) if j < 0 else j
+            out.append(a[i:j]); i = j
         elif c == '\\' and i + 1 < len(a):
             if a[i + 1] == '\n': had = True
             else: out.append(a[i:i + 2])
